@@ -5,6 +5,9 @@ From Coq Require Import List Bool Arith ZArith QArith.
 From GV Require Import Base.Outcome Base.AMap Model.GState Model.Creation Model.Query
      Model.Components Model.Cluster Model.Square Spec.ClusterDef Spec.ClusterSpec
      Proofs.ClusterDefOk Proofs.ClusterOk Proofs.ClusterEqOk.
+From GV Require Import Proofs.ClusterTotalOk.
+From GV Require Import Spec.CompSpec Spec.EdgeAdj Spec.History Proofs.WFDefs Proofs.HistoryOk Proofs.ClusterWF
+     Proofs.ClusterDirOk Proofs.ClusterRangeOk Proofs.SquareOk Proofs.ClusterRangeWF Proofs.ClusterTotalOk.
 Import ListNotations.
 Close Scope Q_scope.
 
@@ -25,6 +28,20 @@ Section C11.
   Theorem C11_unit_interval : forall (nodes : list T) adjb v,
     (0 <= cc teqb nodes adjb v /\ cc teqb nodes adjb v <= 1)%Q.
   Proof. exact (cc_unit_interval teqb). Qed.
+
+  (* Fagiolo's directed coefficient lies in [0,1], for every node list and arc relation
+     (counting inequality 2T + 2 d_tot + 4 d_bi <= 2 d_tot^2) *)
+  Theorem C11_directed_unit_interval : forall (nodes : list T) adjb i,
+    (0 <= cc_directed teqb nodes adjb i /\ cc_directed teqb nodes adjb i <= 1)%Q.
+  Proof. exact (cc_directed_unit_interval teqb teqb_spec). Qed.
+
+  (* Lind's square coefficient lies in [0,1], for every duplicate-free node list, symmetric
+     adjacency and node of the list (numerator <= denominator as integers) *)
+  Theorem C11_square_unit_interval : forall (nodes : list T) adjb,
+    NoDup nodes -> (forall u v, adjb u v = adjb v u) ->
+    forall v, In v nodes ->
+    (0 <= square_def teqb nodes adjb v /\ square_def teqb nodes adjb v <= 1)%Q.
+  Proof. exact (square_unit_interval teqb teqb_spec). Qed.
 
   (* self-loops never count: two adjacencies that differ only on the diagonal give the same
      neighbours, degrees, triangle counts, clustering, transitivity, generalised degree,
@@ -100,6 +117,13 @@ Section C11.
   Theorem C11_subset_defined : forall (g : gstate) S mS v,
     S <> [] -> triangles teqb g (Some S) = Ok mS -> In v S -> exists a, lookup teqb v mS = Some a.
   Proof. exact (triangles_defined teqb teqb_spec). Qed.
+  (* average_clustering = the mean of the counted values of the clustering map (all of them
+     with count_zeros, the non-zero ones without); None (NaN) when nothing is counted *)
+  Theorem C11_average_is_mean : forall (g : gstate) nn cz a,
+    average_clustering teqb g nn cz = Ok a ->
+    exists m, clustering teqb g nn = Ok m /\ opt_Qeq a (mean cz (map snd m)).
+  Proof. exact (average_clustering_is_mean teqb). Qed.
+
   (* ---- model = definition (undirected, unweighted) ----
      for every graph state passing the executable coherence test nbr_ok_b (node list
      duplicate-free; neighbour query total, inside the node list, symmetric - evaluated by the
@@ -127,3 +151,140 @@ Section C11.
     (q == transitivity_def teqb (get_all_node_names g) (nadj teqb g))%Q.
   Proof. intros g q Hok. exact (transitivity_eq_def teqb teqb_spec g Hok q). Qed.
 End C11.
+
+(* ======================================================================================
+   END TO END.  The executable coherence test nbr_ok_b is a CONSEQUENCE of the coherence
+   invariant WF of the twelve fields (which holds in every state reachable by any history of
+   mutations, in particular in every graph built by new_from_nodes_and_edges), and the
+   adjacency nadj the functions read IS the adjacency of the EDGE LIST: edge_adjb g u v = there
+   is an edge u -> v or v -> u in get_all_edges.  Hence, with no per-case test left in the
+   hypotheses, the values equal the definitions of Spec/ClusterDef.v over the edge list. *)
+Section C11_end_to_end.
+  Context {T A : Type}.
+  Variable teqb : T -> T -> bool.
+  Variable tltb : T -> T -> bool.
+  Hypothesis teqb_spec : forall x y, teqb x y = true <-> x = y.
+  Hypothesis tltb_asym : forall x y, tltb x y = true -> tltb y x = false.
+  Hypothesis tltb_total : forall x y, tltb x y = false -> tltb y x = false -> x = y.
+  Notation gstate := (gstate T A).
+  Notation WF := (@WF T A teqb tltb).
+
+  Theorem C11_reachable_WF : forall s (g : gstate), reachable teqb tltb s g -> WF g.
+  Proof. exact (WF_reachable teqb tltb teqb_spec tltb_asym tltb_total). Qed.
+
+  (* ---- the per-case tests are theorems ---- *)
+  Theorem C11_nbr_ok_holds : forall (g : gstate), WF g -> nbr_ok_b teqb g = true.
+  Proof. exact (nbr_ok_wf teqb tltb teqb_spec tltb_total). Qed.
+
+  Theorem C11_nadj_is_edge_list : forall (g : gstate) v u,
+    WF g -> nadj teqb g v u = edge_adjb teqb g v u.
+  Proof. exact (nadj_edge_adjb teqb tltb teqb_spec tltb_total). Qed.
+
+  (* the neighbour set every clustering function starts from: total, duplicate-free, exactly
+     the nodes joined to v by a stored edge in either direction *)
+  Theorem C11_neighbor_set : forall (g : gstate) v,
+    WF g -> In v (get_all_node_names g) ->
+    exists l, neighbor_name_set teqb g v = Ok l /\ NoDup l /\
+              forall u, In u l <-> (edge_rel g v u \/ edge_rel g u v).
+  Proof. exact (neighbor_name_set_wf teqb tltb teqb_spec tltb_total). Qed.
+
+  (* ---- model = definition over the edge list (undirected, unweighted) ---- *)
+  Theorem C11_triangles_wf : forall (g : gstate), WF g -> forall nn m v,
+    triangles teqb g nn = Ok m ->
+    In v (requested_names g nn) -> In v (get_all_node_names g) ->
+    lookup teqb v m = Some (tri teqb (get_all_node_names g) (edge_adjb teqb g) v).
+  Proof. exact (triangles_wf teqb tltb teqb_spec tltb_total). Qed.
+
+  Theorem C11_triangles_reachable : forall s (g : gstate), reachable teqb tltb s g -> forall nn m v,
+    triangles teqb g nn = Ok m ->
+    In v (requested_names g nn) -> In v (get_all_node_names g) ->
+    lookup teqb v m = Some (tri teqb (get_all_node_names g) (edge_adjb teqb g) v).
+  Proof. intros s g R. exact (triangles_wf teqb tltb teqb_spec tltb_total g (C11_reachable_WF s g R)). Qed.
+
+  Theorem C11_clustering_wf : forall (g : gstate), WF g -> forall nn m v,
+    directed (sp g) = false ->
+    clustering teqb g nn = Ok m ->
+    In v (requested_names g nn) -> In v (get_all_node_names g) ->
+    exists c, lookup teqb v m = Some c /\ (c == cc teqb (get_all_node_names g) (edge_adjb teqb g) v)%Q.
+  Proof. exact (clustering_wf teqb tltb teqb_spec tltb_total). Qed.
+
+  Theorem C11_clustering_reachable : forall s (g : gstate), reachable teqb tltb s g -> forall nn m v,
+    directed (sp g) = false ->
+    clustering teqb g nn = Ok m ->
+    In v (requested_names g nn) -> In v (get_all_node_names g) ->
+    exists c, lookup teqb v m = Some c /\ (c == cc teqb (get_all_node_names g) (edge_adjb teqb g) v)%Q.
+  Proof. intros s g R. exact (clustering_wf teqb tltb teqb_spec tltb_total g (C11_reachable_WF s g R)). Qed.
+
+  Theorem C11_transitivity_wf : forall (g : gstate), WF g -> forall q,
+    transitivity teqb g = Ok q ->
+    (q == transitivity_def teqb (get_all_node_names g) (edge_adjb teqb g))%Q.
+  Proof. exact (transitivity_wf teqb tltb teqb_spec tltb_total). Qed.
+
+  Theorem C11_transitivity_reachable : forall s (g : gstate), reachable teqb tltb s g -> forall q,
+    transitivity teqb g = Ok q ->
+    (q == transitivity_def teqb (get_all_node_names g) (edge_adjb teqb g))%Q.
+  Proof. intros s g R. exact (transitivity_wf teqb tltb teqb_spec tltb_total g (C11_reachable_WF s g R)). Qed.
+
+  (* generalized_degree(v): a duplicate-free histogram with an entry (k, c) exactly when
+     c = gen_degree v k (the number of edges at v lying in exactly k triangles) is not 0 *)
+  Theorem C11_generalized_degree_wf : forall (g : gstate), WF g -> forall nn m v,
+    generalized_degree teqb g nn = Ok m ->
+    In v (requested_names g nn) -> In v (get_all_node_names g) ->
+    exists h, lookup teqb v m = Some h /\ NoDup (map fst h) /\
+      forall k, lookup Nat.eqb k h =
+                if Nat.eqb (gen_degree teqb (get_all_node_names g) (edge_adjb teqb g) v k) 0 then None
+                else Some (gen_degree teqb (get_all_node_names g) (edge_adjb teqb g) v k).
+  Proof. exact (generalized_degree_wf teqb tltb teqb_spec tltb_total). Qed.
+
+  (* clustering on a DIRECTED graph = Fagiolo's coefficient over the arcs of the edge list
+     (has_edge_b g u v: there is an edge u -> v in get_all_edges) *)
+  Theorem C11_clustering_directed_wf : forall (g : gstate), WF g -> directed (sp g) = true ->
+    forall nn m v,
+    clustering teqb g nn = Ok m ->
+    In v (names_of g nn) -> In v (get_all_node_names g) ->
+    exists c, lookup teqb v m = Some c /\
+              (c == cc_directed teqb (get_all_node_names g) (has_edge_b teqb g) v)%Q.
+  Proof. exact (clustering_directed_wf teqb tltb teqb_spec). Qed.
+
+  (* square_clustering on an UNDIRECTED graph = Lind's coefficient over the edge list, and the
+     call returns whenever every requested name is a node (there is no error channel) *)
+  Theorem C11_square_wf : forall (g : gstate), WF g -> directed (sp g) = false ->
+    forall nn m v,
+    square_clustering teqb g nn = Ok m ->
+    In v (names_of g nn) -> In v (get_all_node_names g) ->
+    exists c, lookup teqb v m = Some c /\
+              (c == square_def teqb (get_all_node_names g) (edge_adjb teqb g) v)%Q.
+  Proof. exact (square_clustering_wf teqb tltb teqb_spec tltb_total). Qed.
+
+  Theorem C11_square_total_wf : forall (g : gstate), WF g -> directed (sp g) = false ->
+    forall nn, (forall v, In v (names_of g nn) -> In v (get_all_node_names g)) ->
+    exists m, square_clustering teqb g nn = Ok m.
+  Proof. exact (square_clustering_total teqb tltb teqb_spec tltb_total). Qed.
+
+  (* every value returned by clustering (both graph kinds) and by square_clustering
+     (undirected) lies in [0,1]; no hypothesis on the requested names *)
+  Theorem C11_clustering_range_wf : forall (g : gstate), WF g -> forall nn m v c,
+    clustering teqb g nn = Ok m -> lookup teqb v m = Some c -> (0 <= c /\ c <= 1)%Q.
+  Proof. exact (clustering_unit_wf teqb tltb teqb_spec tltb_total). Qed.
+
+  Theorem C11_square_range_wf : forall (g : gstate), WF g -> forall nn m v c,
+    directed (sp g) = false ->
+    square_clustering teqb g nn = Ok m -> lookup teqb v m = Some c -> (0 <= c /\ c <= 1)%Q.
+  Proof. exact (square_unit_wf teqb tltb teqb_spec tltb_total). Qed.
+
+  (* TOTALITY: on every coherent single-edge graph state, with node_names = None or any list of
+     nodes of the graph, clustering (both kinds) and average_clustering RETURN, and on an
+     undirected one so do triangles, generalized_degree and transitivity: no unwrap fails and no
+     float division by zero (inf / NaN, a Panic site of the model) happens - Fagiolo's and the
+     undirected denominators are positive whenever the numerator is *)
+  Theorem C11_total_wf : forall (g : gstate), WF g -> forall nn,
+    multi (sp g) = false ->
+    (forall l, nn = Some l -> forall v, In v l -> In v (get_all_node_names g)) ->
+    (exists m, clustering teqb g nn = Ok m) /\
+    (forall cz, exists a, average_clustering teqb g nn cz = Ok a) /\
+    (directed (sp g) = false ->
+       (exists m, triangles teqb g nn = Ok m) /\
+       (exists m, generalized_degree teqb g nn = Ok m) /\
+       (exists q, transitivity teqb g = Ok q)).
+  Proof. exact (cluster_total_wf teqb tltb teqb_spec tltb_total). Qed.
+End C11_end_to_end.
